@@ -14,7 +14,7 @@ def IntExc (e : PyExc) : Prop := e = .typeError ∨ e = .valueError ∨ e = .ove
 
 theorem longFromString_err (sp : Nat → Bool) (s : List Nat) (b : Nat) (e : PyExc)
     (h : longFromString sp s b = .error e) : e = .valueError := by
-  unfold longFromString at h
+  unfold longFromString finishScan at h
   simp only at h
   repeat' split at h
   all_goals first | (simp at h; done) | (simp at h; exact h.symm) | skip
